@@ -563,6 +563,58 @@ pub fn c31_two<'a>(a: Stream<u32, P<'a>>, b: Stream<u32, P<'a>>) {
     out.embedded_output("out");
 }
 
+// bounded top-level collections sliced together with an unbounded trigger `a`, so that the slice
+// runs in several ticks: a bounded STREAM-like collection must be handed to exactly one batch,
+// a bounded SINGLETON-like collection is seen (unchanged) by every slice
+
+pub fn c31_bk_stream<'a>(a: Stream<u32, P<'a>>) {
+    let p = a.location().clone();
+    let bounded = p.source_iter(q!([1u32, 2, 3]));
+    let out = sliced! {
+        let trig = use::batch(a, nondet!(/** recorded */));
+        let b = use::batch(bounded, nondet!(/** recorded */));
+        b.collect_vec().zip(trig.count()).into_stream()
+    };
+    out.embedded_output("out");
+}
+
+pub fn c31_bk_keyed<'a>(a: Stream<u32, P<'a>>) {
+    let p = a.location().clone();
+    let bounded = p.source_iter(q!([(1u32, 10u32), (1, 20), (2, 30)])).into_keyed();
+    let out = sliced! {
+        let trig = use::batch(a, nondet!(/** recorded */));
+        let kv = use::batch(bounded, nondet!(/** recorded */));
+        kv.entries()
+            .assume_ordering::<hydro_lang::live_collections::stream::TotalOrder>(nondet!(/** recorded as produced */))
+            .collect_vec()
+            .zip(trig.count())
+            .into_stream()
+    };
+    out.embedded_output("out");
+}
+
+pub fn c31_bk_singleton<'a>(a: Stream<u32, P<'a>>) {
+    let p = a.location().clone();
+    let bounded = p.source_iter(q!([1u32, 2, 3])).fold(q!(|| 0u32), q!(|acc, x| *acc += x));
+    let out = sliced! {
+        let trig = use::batch(a, nondet!(/** recorded */));
+        let s = use::snapshot(bounded, nondet!(/** recorded */));
+        s.zip(trig.count()).into_stream()
+    };
+    out.embedded_output("out");
+}
+
+pub fn c31_bk_optional<'a>(a: Stream<u32, P<'a>>) {
+    let p = a.location().clone();
+    let bounded = p.source_iter(q!([4u32, 9, 2])).max();
+    let out = sliced! {
+        let trig = use::batch(a, nondet!(/** recorded */));
+        let o = use::snapshot(bounded, nondet!(/** recorded */));
+        o.into_stream().collect_vec().zip(trig.count()).into_stream()
+    };
+    out.embedded_output("out");
+}
+
 // ------------------------------------------------------------------------------------ C34
 
 /// keyed counter (shape of hydro_test::tutorials::keyed_counter): increments are counted inside
